@@ -24,6 +24,7 @@ import (
 
 	"github.com/apmckinlay/gsuneido/util/assert"
 	"github.com/apmckinlay/gsuneido/util/exit"
+	"github.com/apmckinlay/gsuneido/util/verif"
 )
 
 // Offset is an offset within storage
@@ -98,9 +99,15 @@ func (s *Stor) Alloc(n int) (Offset, []byte) {
 	assert.That(0 < n && n <= int(s.chunksize))
 	const maxRetries = 3
 	for range maxRetries {
+		if verif.On {
+			verif.Gate("stor.loadChunk")
+		}
 		allocChunk := s.allocChunk.Load()
 		// another thread could Alloc at this point and advance to the next chunk
 		// which will be caught by the endchunk check (and retry)
+		if verif.On {
+			verif.Gate("stor.addSize")
+		}
 		newsize := s.size.Add(uint64(n)) // serializable
 		if newsize >= closedSize {
 			log.Println("stor: use after close")
@@ -111,6 +118,9 @@ func (s *Stor) Alloc(n int) (Offset, []byte) {
 		// this check catches two cases:
 		// - allocation straddled a chunk boundary
 		// - another thread bumped us into the next chunk
+		if verif.On {
+			verif.Gate("stor.check")
+		}
 		if endChunk == int(allocChunk) {
 			return offset, s.Data(offset)[:n:n]
 		}
@@ -118,6 +128,9 @@ func (s *Stor) Alloc(n int) (Offset, []byte) {
 		// following threads will also get here
 		// (until extend increments allocChunk)
 		s.extend(allocChunk)
+		if verif.On {
+			verif.Gate("stor.retry")
+		}
 		// loop to realloc
 	}
 	panic("Stor.Alloc too many retries")
@@ -128,19 +141,34 @@ func (s *Stor) Alloc(n int) (Offset, []byte) {
 // but only one (the first) does the actual extending.
 // The others wait on the lock.
 func (s *Stor) extend(allocChunk int64) {
+	if verif.On {
+		verif.Gate("stor.extendLock")
+	}
 	s.lock.Lock() // note: lock does not prevent concurrent allocations
 	defer s.lock.Unlock()
+	if verif.On {
+		verif.Gate("stor.extendCheck")
+	}
 	chunks := s.chunks.Load().([][]byte)
 	if int(allocChunk)+1 < len(chunks) {
 		return // another thread beat us to it
 	}
+	if verif.On {
+		verif.Gate("stor.extendAppend")
+	}
 	chunks = append(chunks, s.impl.Get(int(allocChunk+1))) // potentially slow
 	s.chunks.Store(chunks)
+	if verif.On {
+		verif.Gate("stor.extendStoreSize")
+	}
 	// set size to start of chunk, to handle straddle
 	s.size.Store(uint64(allocChunk+1) << s.shift)
 	// NOTE: if another thread calls Alloc at this point
 	// it will loop and realloc, wasting the first increment
 	// but this should be rare and relatively harmless
+	if verif.On {
+		verif.Gate("stor.extendIncChunk")
+	}
 	s.allocChunk.Add(1)
 }
 
